@@ -471,45 +471,8 @@ theorem iterate_induction {C : Ctx} {K : HConsts}
 
 /-! ### which exceptions the order checker raises -/
 
-theorem posInt_error {v : KV} {e : PyErr} (h : posInt v = .error e) : e = .value := by
-  unfold posInt at h
-  split at h
-  · split at h <;> cases h; rfl
-  · cases h
-
-theorem posOk_of_posInt_ok {v k : KV} (h : posInt v = .ok k) : v.posOk = true := by
-  cases v with
-  | str s =>
-    simp only [KV.posOk]
-    cases hp : pyInt s with
-    | none => simp [posInt, hp] at h
-    | some i => rfl
-  | _ => rfl
-
-theorem chrStep_error_kind {cs : List Text} {c : KV} {e : PyErr} (h : chrStep cs c = .error e) : e = .value := by
-  unfold chrStep at h
-  split at h
-  · cases h
-  · split at h
-    · split at h <;> cases h; rfl
-    · cases h; rfl
-
-/-- `sort_key` raises only `KeyError` (no coordinates) or `ValueError` -/
-theorem mkKey_error_kind {o : Order} {cs : List Text} {l : Loc} {e : PyErr} (h : mkKey o cs l = .error e) :
-    e = .key ∨ e = .value := by
-  cases hc : l.hasCoords with
-  | false => rw [mkKey_no_coords hc] at h; cases h; exact .inl rfl
-  | true =>
-    rw [mkKey_unfold hc] at h
-    cases h1 : chrStep cs (chrText l.chr) with
-    | error e1 => rw [h1] at h; cases h; exact .inr (chrStep_error_kind h1)
-    | ok c =>
-      cases h2 : posInt l.start with
-      | error e2 => rw [h1, h2] at h; cases h; exact .inr (posInt_error h2)
-      | ok s =>
-        cases h3 : posInt l.stop with
-        | error e3 => rw [h1, h2, h3] at h; cases h; exact .inr (posInt_error h3)
-        | ok t => rw [h1, h2, h3] at h; cases o <;> cases h
+-- `posInt_error`, `posOk_of_posInt_ok`, `chrStep_error_kind`, `mkKey_error_kind` (and the exact
+-- characterisations `mkKey_keyError_iff`, `mkKey_valueError_iff`) live in `SortOrderLemmas`.
 
 /-- a keyable record with textual barcodes is well-formed -/
 theorem wf_of_mkKey_ok {o : Order} {cs : List Text} {l : Loc} {k : Key} (h : mkKey o cs l = .ok k)
@@ -927,6 +890,178 @@ theorem iterate_kinds {C : Ctx} {K : HConsts} (fuel : Nat) (r : Reader) (chk : C
           rw [toLoc_congr (show rec.dict = prec.dict by rw [hrec]; rfl)]
           exact hk l _ prec (hsch ▸ hp)
         exact ((Checker.addRecord_kinds hok hb).2 chk'' hadd).2.2
+
+/-! ### why the iteration raises `ValueError`
+
+  The order checker raises `ValueError` for exactly two reasons: the chromosome of the record is
+  missing from the contig list the header gives, or the record is out of order.  A position text
+  that is not a number is NOT one of them: such a record cannot be keyed (`KeyError`) and is
+  skipped like a record that lacks a coordinate column. -/
+
+theorem Loc.keyable_of_unkeyable {o : Order} {cs : List Text} {l : Loc} (h : l.unkeyable o cs = true) :
+    l.keyable o cs = false := by
+  unfold Loc.keyable; rw [Loc.unkeyable_iff.1 h]
+
+theorem Loc.keyable_of_no_coords {o : Order} {cs : List Text} {l : Loc} (h : l.hasCoords = false) :
+    l.keyable o cs = false := Loc.keyable_of_unkeyable (Loc.unkeyable_of_no_coords h)
+
+/-- `checker.add(record)` never changes the order or the contig list -/
+theorem Checker.addRecord_order_contigs {c c' : Checker} {rec : Record} (h : c.addRecord rec = .ok c') :
+    c'.order = c.order ∧ c'.contigs = c.contigs := by
+  unfold Checker.addRecord at h
+  simp only [] at h
+  split at h
+  · exact add_order_contigs h
+  · split at h
+    · cases h; exact ⟨rfl, rfl⟩
+    · split at h
+      · cases h
+      · cases h; exact ⟨rfl, rfl⟩
+
+/-- what the checker of a sortable order remembers after accepting a parsed record: the record if
+    it can be keyed, else what it remembered before -/
+theorem Checker.addRecord_ok_sortable {c c' : Checker} {rec : Record} (hs : c.order.sortable = true)
+    (h : c.addRecord rec = .ok c') :
+    c'.last = if rec.toLoc.keyable c.order c.contigs then some rec.toLoc else c.last := by
+  unfold Checker.addRecord at h
+  simp only [] at h
+  split at h
+  · rcases add_ok_sortable hs h with ⟨hk, rfl⟩ | ⟨hu, rfl⟩
+    · simp [hk]
+    · simp [Loc.keyable_of_unkeyable hu]
+  · rename_i hcond
+    have hc : rec.toLoc.hasCoords = false := by
+      cases hh : rec.toLoc.hasCoords <;> simp [hs, hh] at hcond ⊢
+    rw [Loc.keyable_of_no_coords hc]
+    split at h
+    · cases h; rfl
+    · split at h
+      · cases h
+      · cases h; rfl
+
+theorem Checker.LastKeyed.addRecord {c c' : Checker} {rec : Record} (hc : c.LastKeyed)
+    (h : c.addRecord rec = .ok c') : c'.LastKeyed := by
+  unfold Checker.addRecord at h
+  simp only [] at h
+  split at h
+  · exact hc.add h
+  · split at h
+    · cases h; exact hc
+    · split at h
+      · cases h
+      · cases h; exact hc
+
+/-- **why `checker.add(record)` raises `ValueError`** on a parsed record: the order is sortable and
+    either there is a contig list that does not contain the record's chromosome, or the record
+    (which then has its coordinate columns and readable positions) is out of order -/
+theorem Checker.addRecord_valueError_cause {c : Checker} {rec : Record} (hc : c.LastKeyed)
+    (h : c.addRecord rec = .error .value) :
+    c.order.sortable = true ∧
+    ((c.contigs ≠ [] ∧
+        (rec.toLoc.hasCoords = true → ∀ s, rec.toLoc.chrName = some s → s ∉ c.contigs)) ∨
+      (rec.toLoc.hasCoords = true ∧ c.OutOfOrder rec.toLoc)) := by
+  unfold Checker.addRecord at h
+  simp only [] at h
+  split at h
+  · obtain ⟨hs, hm | ho⟩ := (Checker.add_valueError_iff hc).1 h
+    · exact ⟨hs, .inl ⟨hm.2.1, fun _ => hm.2.2⟩⟩
+    · exact ⟨hs, .inr ⟨ho.posOk.1, ho⟩⟩
+  · rename_i hcond
+    have hs : c.order.sortable = true := by
+      cases hh : c.order.sortable <;> simp [hh] at hcond ⊢
+    have hco : rec.toLoc.hasCoords = false := by
+      cases hh : rec.toLoc.hasCoords <;> simp [hs, hh] at hcond ⊢
+    refine ⟨hs, .inl ?_⟩
+    split at h
+    · cases h
+    · split at h
+      · rename_i hk
+        exact ⟨(mkKey_valueError_iff.1 hk).2.1, fun h' => by rw [hco] at h'; cases h'⟩
+      · cases h
+
+/-- a record that has its coordinate columns and a keyable chromosome, but a start or end position
+    that is a text `int()` cannot read, is skipped: the checker is unchanged -/
+theorem Checker.addRecord_bad_position {c : Checker} {rec : Record}
+    (hs : c.order.sortable = true) (h0 : rec.toLoc.hasCoords = true)
+    (hchr : rec.toLoc.chrOk c.contigs)
+    (hp : rec.toLoc.start.posOk = false ∨ rec.toLoc.stop.posOk = false) :
+    c.addRecord rec = .ok c := by
+  unfold Checker.addRecord
+  simp only [h0, Bool.or_true, if_true]
+  exact add_skip_unkeyable hs (mkKey_bad_position h0 hchr hp)
+
+/-- the reader's `__next__` raises nothing but the Strict-mode `MafFormatException` (scheme with
+    pairwise distinct names) -/
+theorem nextRecord_error_format {C : Ctx} {r : Reader} {e : PyErr} (hinv : r.SchemeInv)
+    (hnr : r.nextRecord C = .error e) : r.mode = .strict ∧ ∃ t l, e = .format t l := by
+  cases hn : r.next with
+  | none => rw [nextRecord_none hn] at hnr; cases hnr
+  | some l =>
+    rw [nextRecord_some hn] at hnr
+    rcases hinv with ⟨s, hs', hnd⟩ | ⟨hnone, _⟩
+    · obtain ⟨prec, hp⟩ := parsedLine_ok_of_nodup C l (sch := r.scheme) (cn := none) (some r.lineNo)
+        (by rw [hs']; exact lineNames_scheme s) (names_toList_nodup hnd)
+      rw [hp] at hnr
+      simp only [] at hnr
+      cases hpe : processErrors r.mode prec.errors with
+      | ok lg => rw [hpe] at hnr; cases hnr
+      | error e'' =>
+        rw [hpe] at hnr
+        cases hnr
+        obtain ⟨hm, x, xs, _, rfl⟩ := processErrors_error hpe
+        exact ⟨hm, _, _, rfl⟩
+    · rw [hn] at hnone; cases hnone
+
+theorem nextRecord_schemeInv {C : Ctx} {r r' : Reader} {rec : Record} (hinv : r.SchemeInv)
+    (hnr : r.nextRecord C = .ok (some (rec, r'))) : r'.SchemeInv := by
+  obtain ⟨l, prec, lg, hnext, hp, _, hrec, hr'⟩ := nextRecord_ok hnr
+  have h1 : r'.scheme = r.scheme := by rw [hr']; simp
+  rcases hinv with ⟨s, hs', hnd⟩ | ⟨hnone, _⟩
+  · exact .inl ⟨s, h1.trans hs', hnd⟩
+  · rw [hnext] at hnone; cases hnone
+
+/-- **the `ValueError` of the iteration comes from the order checker**, on the record just parsed,
+    with a checker that has the declared order and contig list and remembers the last of the
+    yielded records that could be keyed -/
+theorem iterate_valueError_source {C : Ctx} {K : HConsts} (fuel : Nat) (r : Reader) (chk : Checker)
+    (acc : List Record) (hf : (pending r).length < fuel) (hs : r.SchemeInv) (hc : chk.LastKeyed)
+    (hlast : chk.order.sortable = true →
+      chk.last = lastKeyed chk.order chk.contigs (acc.map Record.toLoc)) :
+    (Reader.iterate C K fuel r chk acc).2.1 = some .value →
+      ∃ (r0 : Reader) (rec : Record) (chk0 : Checker),
+        r0.nextRecord C = .ok (some (rec, (Reader.iterate C K fuel r chk acc).2.2)) ∧
+        chk0.order = chk.order ∧ chk0.contigs = chk.contigs ∧ chk0.LastKeyed ∧
+        (chk.order.sortable = true → chk0.last = lastKeyed chk.order chk.contigs
+          ((Reader.iterate C K fuel r chk acc).1.map Record.toLoc)) ∧
+        chk0.addRecord rec = .error .value := by
+  refine iterate_induction (C := C) (K := K)
+    (P := fun r' chk' acc' => r'.SchemeInv ∧ chk'.order = chk.order ∧ chk'.contigs = chk.contigs ∧
+      chk'.LastKeyed ∧ (chk.order.sortable = true →
+        chk'.last = lastKeyed chk.order chk.contigs (acc'.map Record.toLoc)))
+    (Q := fun res => res.2.1 = some .value →
+      ∃ (r0 : Reader) (rec : Record) (chk0 : Checker),
+        r0.nextRecord C = .ok (some (rec, res.2.2)) ∧
+        chk0.order = chk.order ∧ chk0.contigs = chk.contigs ∧ chk0.LastKeyed ∧
+        (chk.order.sortable = true → chk0.last = lastKeyed chk.order chk.contigs
+          (res.1.map Record.toLoc)) ∧
+        chk0.addRecord rec = .error .value)
+    ?_ ?_ ?_ ?_ fuel r chk acc hf ⟨hs, rfl, rfl, hc, hlast⟩
+  · intro r' chk' acc' _ _ he; cases he
+  · intro r' chk' acc' e ⟨hinv, _⟩ hnr he
+    simp only [Option.some.injEq] at he
+    subst he
+    obtain ⟨_, t, l, h⟩ := nextRecord_error_format hinv hnr
+    cases h
+  · intro r' chk' acc' rec r'' e ⟨_, hord, hcs, hlk, hl⟩ hnr hadd he
+    simp only [Option.some.injEq] at he
+    subst he
+    exact ⟨r', rec, chk', hnr, hord, hcs, hlk, hl, hadd⟩
+  · intro r' chk' acc' rec r'' chk'' ⟨hinv, hord, hcs, hlk, hl⟩ hnr hadd
+    obtain ⟨ho, hc'⟩ := Checker.addRecord_order_contigs hadd
+    refine ⟨nextRecord_schemeInv hinv hnr, ho.trans hord, hc'.trans hcs, hlk.addRecord hadd, ?_⟩
+    intro hsort
+    rw [Checker.addRecord_ok_sortable (by rw [hord]; exact hsort) hadd, List.map_append,
+      List.map_singleton, lastKeyed_append_singleton, hord, hcs, hl hsort]
 
 theorem findSchemeClass_mem {all : List Scheme} {v a : Option String} {s : Scheme}
     (h : findSchemeClass all v a = .ok (some s)) : s ∈ all := by
